@@ -327,8 +327,17 @@ func c14BowlSessions(env *Env, c *C14Case, old, nw []byte) {
 	base := env.Scratch.Sub("c14bowl")
 	defer os.RemoveAll(base)
 	dir, ndir, stage := base+"/dir", base+"/new", base+"/stage"
-	(&wvlib.Build{Entries: []wvlib.BEntry{{Path: "f.bin", Kind: 'f', Data: old}}}).Write(dir)
-	(&wvlib.Build{Entries: []wvlib.BEntry{{Path: "f.bin", Kind: 'f', Data: nw}}}).Write(ndir)
+	// two more files patched by the same bowl (its Commit applies every staged overlay in one go): each is its old
+	// self with a few bytes changed past the start (a SKIP, then FRESH data) and, for the first, a longer tail
+	gOld, hOld := append([]byte(nil), nw...), append([]byte(nil), old...)
+	gNew, hNew := append([]byte(nil), nw...), append([]byte(nil), old...)
+	for k := 0; k < 3; k++ {
+		gNew[len(gNew)/2+r.Intn(len(gNew)-len(gNew)/2)] ^= 0x5a
+		hNew[len(hNew)/3+r.Intn(len(hNew)-len(hNew)/3)] ^= 0xa5
+	}
+	gNew = append(gNew, r.Bytes(1+r.Intn(300))...)
+	(&wvlib.Build{Entries: []wvlib.BEntry{{Path: "f.bin", Kind: 'f', Data: old}, {Path: "g.bin", Kind: 'f', Data: gOld}, {Path: "h.bin", Kind: 'f', Data: hOld}}}).Write(dir)
+	(&wvlib.Build{Entries: []wvlib.BEntry{{Path: "f.bin", Kind: 'f', Data: nw}, {Path: "g.bin", Kind: 'f', Data: gNew}, {Path: "h.bin", Kind: 'f', Data: hNew}}}).Write(ndir)
 	tc, err1 := tlc.WalkAny(dir, tlc.WalkOpts{})
 	sc, err2 := tlc.WalkAny(ndir, tlc.WalkOpts{})
 	if err1 != nil || err2 != nil {
@@ -431,11 +440,35 @@ func c14BowlSessions(env *Env, c *C14Case, old, nw []byte) {
 		fail("error", err.Error())
 		return
 	}
+	for i, data := range [][]byte{gNew, hNew} {
+		w, err := b2.GetWriter(int64(i + 1))
+		if err != nil {
+			fail("error", err.Error())
+			return
+		}
+		if _, err := w.Resume(nil); err != nil {
+			fail("error", err.Error())
+			return
+		}
+		cut := r.Intn(len(data) + 1)
+		_, err1 := w.Write(data[:cut])
+		_, err2 := w.Write(data[cut:])
+		if err1 != nil || err2 != nil || w.Finalize() != nil || w.Close() != nil {
+			fail("error", fmt.Sprintf("writing file %d of the same bowl failed", i+1))
+			return
+		}
+	}
 	if err := b2.Commit(); err != nil {
 		fail("error", "commit: "+err.Error())
 		return
 	}
 	b2.Close()
+	for i, want := range [][]byte{gNew, hNew} {
+		name := []string{"g.bin", "h.bin"}[i]
+		if got, _ := os.ReadFile(dir + "/" + name); !bytes.Equal(got, want) {
+			fail("result-differs:later-file", fmt.Sprintf("%s (file %d of the bowl): committed file has %d bytes, new has %d, first difference at %d", name, i+1, len(got), len(want), firstDiffBytes(got, want)))
+		}
+	}
 	got, _ := os.ReadFile(dir + "/f.bin")
 	if !bytes.Equal(got, nw) {
 		fail("result-differs", fmt.Sprintf("checkpoint after %d bytes, %d more written before the crash: committed file has %d bytes (fnv %d), new has %d (fnv %d), first difference at %d", a, ahead, len(got), wvlib.Fnv(got), len(nw), wvlib.Fnv(nw), firstDiffBytes(got, nw)))
